@@ -77,8 +77,6 @@ def pairs(draw, fmt, chart=False):
         k = draw(st.sampled_from(msdgap.MULTI))
         v = ":".join(draw(st.lists(values(allow_none=False, long_ok=False), min_size=1, max_size=4)))
         v = msdgap.safe_text(v)
-    if v is None and k in msdgap.MULTI:
-        v = ""
     return list(msdgap.safe_pair(k, v))
 
 
@@ -107,9 +105,8 @@ def ssc_chart_specs(draw):
     # sometimes make other values the very same string object / an equal string as the note data
     if items and draw(st.integers(0, 2)) == 0:
         for it in draw(st.lists(st.sampled_from(items), max_size=3)):
-            if it[0] not in msdgap.MULTI or nv is not None:
-                it[1] = nv
-                it[0], it[1] = msdgap.safe_pair(it[0], it[1])
+            it[1] = nv
+            it[0], it[1] = msdgap.safe_pair(it[0], it[1])
     spec = {"base": base, "items": [], "del": []}
     if base == "blank":
         spec["del"] = ["NOTES"] if nk == "NOTES2" else []
@@ -138,8 +135,6 @@ def attr_value(fmt, attr, v):
     """value assigned through a simfile attribute: repaired for the key it may land on"""
     table = M.SM_SIM_ATTRS if fmt == "sm" else M.SSC_SIM_ATTRS
     std, alias = table[attr]
-    if v is None and std in msdgap.MULTI:
-        return ""
     return v
 
 
@@ -201,8 +196,6 @@ def sim_ops(draw, fmt):
         if kind == "caset":
             a = draw(st.sampled_from(sorted(M.SSC_CHART_ATTRS)))
             v = draw(values())
-            if v is None and M.SSC_CHART_ATTRS[a][0] in msdgap.MULTI:
-                v = ""
             return ["caset", draw(idx), a, v]
         if kind == "cadel":
             return ["cadel", draw(idx), draw(st.sampled_from(sorted(M.SSC_CHART_ATTRS)))]
